@@ -52,15 +52,15 @@ chk("C18","E3-hist","model_checking",
 
 dtls_note = "Trusted: tokio's paused clock and current-thread scheduler; select! branch order seeded; zero processing time; cryptographic primitives. rustrtc<->rustrtc endpoints only."
 chk("C11",E2,"model_checking",
-  "Every fault history with at most B deviations {drop, dup, late dup, swap, delay 1 s / 2.5 s, re-fragmentation in order / reversed} over every handshake datagram (all flights and every retransmission) of two real DtlsTransports is executed in virtual time up to the 30 s handshake deadline; plus a fragment-permutation plan (three fragments delivered 1,3,2).",
-  dtls_note + " The fragment-permutation plan waives the identical-replay requirement (garbage parse depends on DTLS randoms the harness does not own).",
-  "deviation-bounded exhaustive exploration of handshake fault histories on the real implementation","DESIGN.md 4.11")
+  "Every fault history with at most B deviations {drop, dup, late dup, swap, delay 1 s / 2.5 s, re-fragmentation in order / reversed} over every handshake datagram (all flights and every retransmission) of two real DtlsTransports is executed in virtual time up to the 30 s handshake deadline; plus a fragment-permutation plan (three fragments delivered 1,3,2); plus the same exploration over the two MIXED pairs rustrtc client <-> reference DTLS server and reference DTLS client <-> rustrtc server (webrtc-rs dtls 0.17.2 driven on the same in-memory network and virtual clock; same-keys judged by exporter output, SRTP profile and a two-way application-data round trip).",
+  dtls_note + " The fragment-permutation plan waives the identical-replay requirement (garbage parse depends on DTLS randoms the harness does not own). One reference limitation is excused and counted in the evidence (interop_reference_limited): as server the reference never re-sends its final flight once its handshake returned.",
+  "deviation-bounded exhaustive exploration of handshake fault histories on the real implementation, rustrtc<->rustrtc and rustrtc<->reference DTLS (webrtc-rs dtls) in both roles","DESIGN.md 4.11")
 chk("C02",E2,"model_checking",
   "Every tamper op of a 26-entry catalogue (certificate / key-exchange / signature / randoms / omission / reordering / replay / extension stripping / full MITM with own or stolen certificate), applied persistently to every matching message, x expected fingerprint {correct, absent, wrong} on each side (thorough: all pairs of ops) is executed on two real DtlsTransports to the handshake deadline.",
   dtls_note + " The attacker cannot forge signatures; certificates are P-256.",
   "exhaustive enumeration of on-path tamper histories against the real handshake with an authenticity oracle","DESIGN.md 4.2")
 chk("C03",E2,"model_checking",
-  "Inbound: every record of a catalogue (6 content types x 3 epochs x 4 payloads x 2 sources; every single-bit flip, truncation, re-addressing and epoch rewrite of a genuine record) injected at each of 5 stages into either endpoint (thorough: pairs), compared with the injection-free run. Outbound: every start order of 1-3 concurrent senders x 6 payload sizes, every emitted datagram checked (one record, encrypted, <= path limit, unique nonce, reassembles the payloads).",
+  "Inbound: every record of a catalogue (6 content types x 3 epochs x 4 payloads x 2 sources; every single-bit flip, truncation, re-addressing and epoch rewrite of a genuine record) injected into either endpoint at every quiescent datagram boundary of the handshake at which the victim holds keys, once both are connected, after traffic and after close_notify (thorough: pairs), compared with the injection-free run in delivered payloads, final states AND the state history sampled at every quiescent point. Outbound: every start order of 1-3 concurrent senders x 6 payload sizes, every emitted datagram checked (one record, encrypted, <= path limit, unique nonce, reassembles the payloads).",
   dtls_note + " Concurrent senders interleave at await-point granularity only.",
   "exhaustive injection enumeration over protocol stages with a differential (injection-free) oracle","DESIGN.md 4.3")
 
@@ -108,7 +108,7 @@ m = {"version": 1,
    "baseline_off_cmd": "/verif/baseline.sh", "source_commits": hooks, "add_only": True},
  "engines": [
   {"name":"E1-loom","path":"harness/h_loom","serves_properties":["C20"],"kind_free_text":"loom DPOR over the repository's spsc.rs/track.rs included textually with shadowed primitives"},
-  {"name":"E2-sim","path":"harness/vh/src/{sim,sctp_sim,sctp_props,dtls_sim,dtls_attacker,explorer,wire,c07live,c17sctp}.rs + bin/{c02,c03,c11}.rs","serves_properties":["C01","C02","C03","C07","C11","C12","C13","C17"],"kind_free_text":"deterministic two-endpoint simulator (real IceConn/DTLS/SCTP on an in-memory socket, paused tokio clock, seeded RNG) under a deviation-bounded fault explorer"},
+  {"name":"E2-sim","path":"harness/vh/src/{sim,sctp_sim,sctp_props,dtls_sim,dtls_attacker,explorer,wire,dtls_ref,c07live,c17sctp}.rs + bin/{c02,c03,c11}.rs","serves_properties":["C01","C02","C03","C07","C11","C12","C13","C17"],"kind_free_text":"deterministic two-endpoint simulator (real IceConn/DTLS/SCTP on an in-memory socket, paused tokio clock, seeded RNG) under a deviation-bounded fault explorer"},
   {"name":"E5-loopback","path":"harness/vh/src/bin/{c06,c10,c17}.rs + src/c14pc.rs","serves_properties":["C06","C10","C14","C17"],"kind_free_text":"finite lattices of configurations / credentials / crash points on real loopback sockets, thrice-confirmed"},
   {"name":"E3-hist","path":"harness/vh/src/bin/{c05,c09,c14,c18,c19}.rs","serves_properties":["C05","C09","C14","C18","C19"],"kind_free_text":"explicit-state search over operation histories replayed on fresh real objects"},
   {"name":"E4-enum","path":"harness/vh/src/bin/{c04,c07,c08,c15,c16}.rs + src/c07/","serves_properties":["C04","C07","C08","C15","C16"],"kind_free_text":"complete enumeration of bounded input spaces against reference models / independent implementations"}],
